@@ -7,7 +7,8 @@ From Lal Require Import Common.LBytes Common.Res Net.NetChk Net.NetChkProofs
   Net.NetRtpHeader Net.NetRtpHeaderProofs Net.NetRtcp Net.NetInterleaved Net.NetWsRead Net.NetFramingProofs
   Net.NetAuHeader Net.NetAuHeaderProofs Net.NetUnpack Net.NetUnpackProofs Net.NetInSess Net.NetInSessProofs
   Net.NetInSessSetup Net.NetInSessSetupProofs Net.NetPs Net.NetPsProofs
-  Net.NetStr Net.NetSdpRaw Net.NetUrlPath Net.NetRtmpClient Net.NetTextProofs Net.NetHttpMsg Net.NetHttpMsgProofs.
+  Net.NetStr Net.NetSdpRaw Net.NetUrlPath Net.NetRtmpClient Net.NetTextProofs Net.NetHttpMsg Net.NetHttpMsgProofs
+  Net.NetSdpFull Net.NetRtspCmd Net.NetRtspCmdProofs.
 Open Scope N_scope.
 
 (* ---- 1. RTP header / packet / body ------------------------------------- *)
@@ -237,6 +238,53 @@ Theorem c13_rtsp_msg_refuted :
 Proof. exact read_msg_pinned_refuted. Qed.
 Print Assumptions c13_rtsp_msg_refuted.
 
+(* ---- 9. the RTSP command layer of the server ------------------------------------------------- *)
+(* ServerCommandSession.runCmdLoop with its handlers (OPTIONS / ANNOUNCE / DESCRIBE / SETUP / RECORD / PLAY /
+   TEARDOWN / anything else, in any order and repetition), auth off, plain or WebSocket framing: for EVERY byte
+   stream of the command connection, EVERY behaviour of the upper layer (publish refused or accepted; DESCRIBE
+   refused, accepted without SDP - nobody publishes yet -, accepted with any SDP text; PLAY refused or accepted)
+   and EVERY verdict of base.ParseRtspUrl on the request URIs: the loop returns (the connection is closed), no
+   handler panics, no loop runs out of fuel *)
+Theorem c13_rtsp_cmd_total : forall uri_ok ob ws s, (ws = false -> bytes_ok s) ->
+  exists st evs, run_cmd true uri_ok ob ws s = Ok (st, evs).
+Proof. intros uri_ok ob ws s H. destruct (run_cmd_total uri_ok ob ws s H) as [[st evs] E]. eauto. Qed.
+Print Assumptions c13_rtsp_cmd_total.
+
+(* ... and nothing a SETUP made lal open outlives the session: every pair of UDP sockets bound for a SETUP is
+   either held by the session's transport holder (closed by Dispose) or closed at once *)
+Theorem c13_rtsp_cmd_no_leak : forall uri_ok ob ws s st evs,
+  run_cmd true uri_ok ob ws s = Ok (st, evs) -> cs_leak st = 0.
+Proof. intros uri_ok ob ws s st evs H. apply cmd_loop_no_leak in H. exact H. Qed.
+Print Assumptions c13_rtsp_cmd_no_leak.
+
+(* a SETUP is answered only when a media session with a parsed SDP exists and the uri names one of its tracks;
+   without a session, and for a sub session whose SDP has not been fed yet, the connection is closed *)
+Theorem c13_rtsp_cmd_setup_needs_track : forall fx uri_ok ob st m st' evs,
+  bytes_eqb (mo_a m) m_options = false -> bytes_eqb (mo_a m) m_announce = false -> bytes_eqb (mo_a m) m_describe = false ->
+  bytes_eqb (mo_a m) m_setup = true ->
+  handle_req fx uri_ok ob st m = Ok (st', evs, true) ->
+  exists a v rec, setup_ctx (cs_role st) = Some (a, v, rec) /\ track_of a v (mo_b m) <> None.
+Proof. exact setup_needs_track. Qed.
+Print Assumptions c13_rtsp_cmd_setup_needs_track.
+
+(* the pieces: the whole-SDP line loop over the checked line parsers, the Transport header parser *)
+Theorem c13_no_panic_sdp_full : forall b, is_panic (parse_sdp_raw b) = false.
+Proof. exact parse_sdp_raw_no_panic. Qed.
+Print Assumptions c13_no_panic_sdp_full.
+Theorem c13_no_panic_rtsp_transport : forall key htv, is_panic (parse_transport key htv) = false.
+Proof. exact parse_transport_no_panic. Qed.
+Print Assumptions c13_no_panic_rtsp_transport.
+
+(* before the repair: ANNOUNCE and the same UDP SETUP three times on one connection leave two pairs of sockets
+   open for ever; a UDP SETUP without a session leaves one *)
+Theorem c13_rtsp_cmd_refuted :
+  (exists st evs, run_cmd false (fun _ => true) w_obs false (w_announce ++ w_setup_udp ++ w_setup_udp ++ w_setup_udp) = Ok (st, evs) /\ cs_leak st = 2) /\
+  (exists st evs, run_cmd false (fun _ => true) w_obs false w_setup_udp = Ok (st, evs) /\ cs_leak st = 1) /\
+  (exists st evs, run_cmd true (fun _ => true) w_obs false (w_announce ++ w_setup_udp ++ w_setup_udp ++ w_setup_udp) = Ok (st, evs) /\
+     cs_leak st = 0 /\ length evs = 5%nat).
+Proof. exact run_cmd_pinned_refuted. Qed.
+Print Assumptions c13_rtsp_cmd_refuted.
+
 (* non-vacuity: a well-formed packet with CSRC, extension and padding is accepted *)
 Example c13_rtp_nonvacuous :
   exists h, parse_rtp_packet_body true
@@ -266,3 +314,12 @@ Example c13_rtsp_msg_nonvacuous :
   read_msg true ([65; 32; 66; 32; 67; 13; 10; 99; 111; 110; 116; 101; 110; 116; 45; 108; 101; 110; 103; 116; 104; 58; 32; 51; 13; 10; 13; 10; 120; 121; 122; 36])
   = Ok (mk_out [65] [66] [67] [(content_length_key, [[51]])] [120; 121; 122] 3 None [36]).
 Proof. vm_compute. reflexivity. Qed.
+
+(* non-vacuity: DESCRIBE answered without SDP (nobody publishes the stream yet), then SETUP: the sub session
+   exists, the SETUP finds no SDP, the connection is closed without an answer - the state the seeded nil
+   dereference lived in *)
+Example c13_rtsp_cmd_nonvacuous :
+  exists st, run_cmd true (fun _ => true) w_obs false
+    ([68; 69; 83; 67; 82; 73; 66; 69; 32; 114; 116; 115; 112; 58; 47; 47; 104; 47; 120; 32; 82; 13; 10; 67; 83; 101; 113; 58; 32; 55; 13; 10; 13; 10] ++ w_setup_udp)
+    = Ok (st, [CvCbDescribe]) /\ cs_role st = RSub None /\ cs_dseq st = [55].
+Proof. eexists. split; [vm_compute; reflexivity|split; reflexivity]. Qed.
